@@ -88,6 +88,7 @@ class NonThreadedExecutor:
 
         self.excinfo = None
         self.errorstack = None
+        self.rolledback.clear()
         self.is_executing = True
 
         try:
@@ -172,6 +173,7 @@ class ThreadedExecutor(NonThreadedExecutor):
         self.initnode = node
         self.excinfo = None
         self.errorstack = None
+        self.rolledback.clear()
         try:
             self.is_executing = True
             self.thread.signal_start.set()
@@ -295,7 +297,8 @@ class CallStack(deque):
     def rollback(self):
         node = deque.pop(self)
         self.idxstack.pop()
-        self.executor.rolledback.append(node)
+        # Keep the exception being propagated with the node
+        self.executor.rolledback.append((node, sys.exc_info()[1]))
         self.counter -= 1
         cells = node[OBJ]
 
@@ -380,6 +383,12 @@ class ErrorStack(deque):
         tbexc = traceback.TracebackException.from_exception(execinfo[1])
         tb = execinfo[2]
         self.on_eval_flag = False
+
+        # Nodes rolled back for other exceptions are those of failures
+        # handled by formulas themselves
+        nodes = [n for n, exc in rolledback if exc is execinfo[1]]
+        rolledback.clear()
+        rolledback = nodes
 
         mxdir = os.path.dirname(modelx.__file__)
 
